@@ -133,7 +133,8 @@ def check(case, out):
     b0 = a0.copy()
     if variant == "independent":
         b0 = lib.case_state(case["other"])
-    if variant == "perturbed":
+    balanced = variant == "perturbed" and case["index"] % 2 == 1 and b0.n >= 2
+    if variant == "perturbed" and not balanced:
         i = case["index"]
         pt = list(b0.P[i])
         pt[0] += case["delta"]
@@ -158,6 +159,16 @@ def check(case, out):
     if variant == "interval":
         U2 = [u + 1 for u in U2]
     b = b0 if variant == "independent" else oracle.refine_state(b0, U2, p2)
+    if balanced:
+        # two control points of B's own (refined) representation moved by +delta and -delta: the differences
+        # cancel in any sum over the control points, the functions differ all the same
+        out.cls("balanced-perturbation")
+        i = case["index"] % b.n
+        j = (i + 1) % b.n
+        for k, d in ((i, case["delta"]), (j, -case["delta"])):
+            pt = list(b.P[k])
+            pt[0] += d
+            b.P[k] = tuple(pt)
     if variant == "alike":
         # two representations that look alike: same degree, same number of control points, same distinct knots,
         # but the extra knot copy sits at another knot (the same curve - or a perturbed one - refined differently)
